@@ -92,27 +92,37 @@ Section RowCodec.
   Proof. destruct s as [a b d e [ ]]. reflexivity. Qed.
 
   (* a spacing attribute inside the box while no text is pending: only the style changes *)
-  Lemma step_attr_empty l s v : is_attr v = true ->
-    step (mkRowst l (mkTitem [] s) true) v = Ok (mkRowst l (mkTitem [] (apply_code s v)) true).
+  Lemma step_attr_empty l s v (b : bool) : is_attr v = true ->
+    step (mkRowst l (mkTitem [] s) b) v = Ok (mkRowst l (mkTitem [] (apply_code s v)) b).
   Proof.
     intros H. apply is_attr_true in H. unfold row_step, apply_code. cbn [rs_started rs_l rs_li ti_text ti_sty].
     destruct s as [col dh ds dw [ ]]. cbn [ts_color ts_dh ts_ds ts_dw ts_x].
     destruct H as [H|H].
     - cmp v. cbn [t_is_some orb andb negb fresh_ne opt_eqb t_opt_or].
-      destruct col as [k|]; cbn [opt_eqb negb]; [|unfold append_item; cbn; reflexivity].
+      destruct col as [k|]; cbn [opt_eqb negb]; [|destruct b; unfold append_item; cbn; reflexivity].
       destruct (N.eqb_spec v k) as [-> | Hne]; cbn [negb].
-      + destruct dh, ds, dw; cbn [fresh_ne orb t_opt_or]; unfold append_item; cbn; reflexivity.
-      + cbn [orb]. unfold append_item. cbn. reflexivity.
+      + destruct b, dh, ds, dw; cbn [fresh_ne orb t_opt_or]; unfold append_item; cbn; reflexivity.
+      + cbn [orb]. destruct b; unfold append_item; cbn; reflexivity.
     - assert (Hv : v = 12 \/ v = 13 \/ v = 14 \/ v = 15) by lia.
-      destruct Hv as [-> | [-> | [-> | ->]]]; cbn; unfold append_item; cbn;
+      destruct b; destruct Hv as [-> | [-> | [-> | ->]]]; cbn; unfold append_item; cbn;
         destruct col, dh, ds, dw; reflexivity.
+  Qed.
+  (* in front of the box: attributes set the style, everything else but a start box is ignored *)
+  Lemma fold_pre vs : forall s, forallb junk_cell vs = true ->
+    fold (mkRowst [] (mkTitem [] s) false) vs = Ok (mkRowst [] (mkTitem [] (fold_left apply_code (filter is_attr vs) s)) false).
+  Proof.
+    induction vs as [|v r IH]; intros s H; cbn [row_fold filter fold_left]; [reflexivity|].
+    cbn [forallb] in H. apply andb_true_iff in H. destruct H as [Hv Hr]. unfold junk_cell in Hv. apply negb_true_iff in Hv. apply N.eqb_neq in Hv.
+    destruct (is_attr v) eqn:A.
+    - rewrite (step_attr_empty [] s v false A). cbn [bind fold_left]. apply IH. exact Hr.
+    - rewrite (step_outside [] (mkTitem [] s) v A Hv). cbn [bind]. apply IH. exact Hr.
   Qed.
   Lemma fold_attrs_empty l vs : forall s, forallb is_attr vs = true ->
     fold (mkRowst l (mkTitem [] s) true) vs = Ok (mkRowst l (mkTitem [] (fold_left apply_code vs s)) true).
   Proof.
     induction vs as [|v r IH]; intros s H; cbn [row_fold fold_left]; [reflexivity|].
     cbn [forallb] in H. apply andb_true_iff in H. destruct H as [Hv Hr].
-    rewrite (step_attr_empty l s v Hv). cbn [bind]. apply IH. exact Hr.
+    rewrite (step_attr_empty l s v true Hv). cbn [bind]. apply IH. exact Hr.
   Qed.
 
   (* an attribute that begins a new run: the pending text is flushed *)
@@ -184,15 +194,13 @@ Section RowCodec.
     apply andb_true_iff in Hok. destruct Hok as [Hpre Hsegs].
     unfold ttx_parse_row, parse_row, row_cells, rowst0, row_runs.
     rewrite fold_app.
-    assert (Hp : fold (mkRowst [] (mkTitem [] (tsty0 unit tt)) false) (rw_pre r) = Ok (mkRowst [] (mkTitem [] (tsty0 unit tt)) false)).
-    { apply fold_outside. rewrite forallb_forall in *. intros v Hv. specialize (Hpre v Hv). unfold junk_cell in Hpre.
-      apply andb_true_iff in Hpre. destruct Hpre as [Hpre _]. exact Hpre. }
+    pose proof (fold_pre (rw_pre r) (tsty0 unit tt) Hpre) as Hp. fold (pre_style r) in Hp.
     rewrite Hp. cbn [bind row_fold]. rewrite step_box. cbn [bind]. rewrite fold_app. rewrite fold_boxes. cbn [bind].
     rewrite fold_app.
-    destruct (fold_segs (rw_segs r) [] [] (tsty0 unit tt) true Hsegs ltac:(reflexivity)) as (l' & txt' & s' & E & R).
+    destruct (fold_segs (rw_segs r) [] [] (pre_style r) true Hsegs ltac:(reflexivity)) as (l' & txt' & s' & E & R).
     replace (flat_map (fun s => sg_codes s ++ sg_cells s) (rw_segs r)) with (flat_map seg_bytes (rw_segs r)) by reflexivity.
     rewrite E. cbn [bind].
-    assert (Hfin : l' ++ run_of txt' s' = seg_runs c (tsty0 unit tt) (rw_segs r)).
+    assert (Hfin : l' ++ run_of txt' s' = seg_runs c (pre_style r) (rw_segs r)).
     { rewrite R. unfold run_of at 1. replace (trim_space []) with (@nil N) by reflexivity. reflexivity. }
     destruct (rw_end r) as [j|].
     - cbn [row_fold]. rewrite step_endbox. cbn [bind]. rewrite (fold_outside _ _ _ Hend). cbn [bind rs_l rs_li].
